@@ -54,8 +54,9 @@ def gen_case(rng):
         t = tm
     exact = rng.choice([0, 1])
     events = []
-    if rng.random() < 0.3:
-        events.append((rng.randint(1, 10), rng.choice([5, 4, 3, 7])))
+    if rng.random() < 0.35:
+        # k = 0: the exit condition is already true when integrate() is entered (the entry heartbeat raises it)
+        events.append((rng.choice([0, 0, 1, 2]) if rng.random() < 0.4 else rng.randint(1, 10), rng.choice([5, 4, 3, 7])))
     return {"integrator": integ, "t0": t0, "dt": dt, "targets": targets, "exact": exact, "events": events}
 
 
@@ -156,7 +157,7 @@ def run(ctx):
             sg = rng.choice([1, 1, -1])
             c["targets"] = c["targets"] + [c["targets"][-1] + sg * abs(c["dt"]) * rng.choice([0.32, 0.7, 1.0, 2.5, 7.3])]
         tm = c["targets"][0]
-        if c["events"] and rng.random() < 0.6 and integ in fixed and abs(tm - c["t0"]) < 20:
+        if c["events"] and c["events"][0][0] > 0 and rng.random() < 0.6 and integ in fixed and abs(tm - c["t0"]) < 20:
             nsteps = run_lib(rebound, dict(c, events=[], targets=c["targets"][:1]))[2]
             if nsteps >= 1: c["events"] = [(nsteps, c["events"][0][1])]
         if integ in ("ias15", "bs", "mercurius", "trace") and any(abs(a - b) > 20 for a, b in zip([c["t0"]] + c["targets"], c["targets"])):
@@ -206,11 +207,13 @@ def run(ctx):
                 why = "time moved against the direction of integration"
             if integ in fixed and c["exact"] and sim.dt != dt_user and st >= 0:
                 why = "step size not restored: dt=%r, user dt=%r, status=%d" % (sim.dt, dt_user, st)
-            if st > 0 and evc:
-                kk = sorted(evc)[0]
-                if st != evc[kk] or sim.steps_done - steps0 != kk:
-                    # the event may legitimately come after the time-based exit
-                    if sim.steps_done - steps0 > kk: why = "status does not name the first boundary that raised an exit condition"
+            if evc:
+                kk = sorted(evc)[0]; nsteps_ = sim.steps_done - steps0
+                # (an event scheduled after the time-based exit legitimately never happens: nsteps_ < kk)
+                if nsteps_ > kk:
+                    why = "an exit condition raised at step boundary %d was passed over: %d steps taken, status %d" % (kk, nsteps_, st)
+                elif nsteps_ == kk and st != evc[kk]:
+                    why = "status %d does not name the exit condition %d raised at the boundary where the run stopped" % (st, evc[kk])
             if why:
                 fails.append({"why": why, "case": c, "call": ci, "before": {"t": t_before, "dt": dt_before},
                               "final": {"t": sim.t, "dt": sim.dt, "status": st, "steps": sim.steps_done - steps0}})
